@@ -4,10 +4,12 @@ CFG = dict(
         "com.Packet Marshal/Unmarshal and MarshalStream/UnmarshalStream are executed for real in every case but are not modelled here (C01 models them); the model only computes the stream length and treats the container's Chunk as the list of packed packets",
         "the overlay shim c2--c03.go builds Session/Listener/Server/conn/proxyClient values without a network and a recording mux (messager); a pending re-key is recorded on client senders so that pick() is deterministic",
         "payload equality is length + CRC-32 of the bytes (content id in the model)",
+        "queues whose fragment groups complete on the receiver are judged by the Go-side oracle only (class group-completes-in-container): reassembly is C02's model",
         "the model's own packet record (Model/Batch.v: id, job, device, flag word as a record, tags, payload length, content id); device IDs are small integers, 0 = the empty ID",
     ],
     assumptions=[
-        "queued packets are `queueable`: not themselves containers (FlagMulti/FlagMultiDevice) or oneshot, job number assigned (verifyPacket's random job for Job 0 is not modelled), non-zero tags, fragments carry a count (or are SvDrop/SvRegister notices)",
+        "delivery theorems: queued items are ordinary `queueable` packets or containers as another session's next() builds them (`item_ok`: count = packets held, ordinary packets with a device, an own container holds own packets), at most fragMax packets in all; containers nested inside a queued container are not modelled; budget / carry-over / tag theorems are stated for container-free queues",
+        "queued packets are `queueable`: not oneshot, job number assigned (verifyPacket's random job for Job 0 is not modelled), non-zero tags, fragments carry a count (or are SvDrop/SvRegister notices)",
         "a queued packet flagged as key material (FlagCrypt) has an empty payload: the peer's key machinery (Listener.notify -> keyCryptAndUpdate) consumes the payload of such a packet, which is C06's subject; its position, order and the rule that next() sends a picked one alone are modelled and generated",
         "Size() <= limits.Frag is NOT assumed (an oversized packet is sent alone; the budget theorem speaks about containers with more than one packet)",
         "a proxyClient queue (the proxy's queue for one of its clients) holds packets for that client's device only (Proxy.accept routes by device)",
